@@ -54,8 +54,7 @@ func (b *buffer) validTag() bool {
 }
 
 // readTagValue discards until tag.ValueOffset and reads length of tag
-func (ir *ifdReader) readTagValue() (buf []byte, err error) {
-	t := ir.buffer.currentTag()
+func (ir *ifdReader) readTagValue(t Tag) (buf []byte, err error) {
 	if err := ir.discard(int(t.ValueOffset) - int(ir.po)); err != nil {
 		return nil, err
 	}
